@@ -23,6 +23,19 @@ Definition lookup_t (doc : tsdoc) (n : str) : option typedef := find (fun t => s
 Definition lookup_d (doc : tsdoc) (n : str) : option directivedef :=
   find (fun d => str_eqb (iname (dd_name d)) n) (directives_of doc).
 
+(** directive definitions written in the schema, and those the toolchain adds (positioned as built-in) *)
+Definition user_directives (doc : tsdoc) : list directivedef :=
+  filter (fun d => negb (pbuiltin (dd_pos d))) (directives_of doc).
+Definition builtin_directives (doc : tsdoc) : list directivedef :=
+  filter (fun d => pbuiltin (dd_pos d)) (directives_of doc).
+Definition dn (d : directivedef) : str := iname (dd_name d).
+Definition unique_type_names (doc : tsdoc) : bool := nodup_str (map tn (types_of doc)).
+(** the built-in directive definitions are distinct and the schema does not redefine one of them
+    (nitrogql tolerates such a redefinition; its two lookups then disagree for that name) *)
+Definition builtins_not_redefined (doc : tsdoc) : bool :=
+  nodup_str (map dn (builtin_directives doc)) &&
+  forallb (fun d => negb (existsb (str_eqb (dn d)) (map dn (builtin_directives doc)))) (user_directives doc).
+
 Definition unique_names (doc : tsdoc) : bool :=
   nodup_str (map tn (types_of doc)) && nodup_str (map (fun d => iname (dd_name d)) (directives_of doc)).
 
@@ -78,6 +91,10 @@ Definition ok_dup_enum_value (doc : tsdoc) : bool :=
           (types_of doc).
 Definition ok_dup_union_member (doc : tsdoc) : bool :=
   forallb (fun t => match t with TDUnion _ _ _ _ ms _ => nodup_str (map iname ms) | _ => true end) (types_of doc).
+
+(** directive names are unique (spec 3.13: "all directives within a GraphQL schema must have unique names") --
+    among the definitions the schema itself writes *)
+Definition ok_dup_directive (doc : tsdoc) : bool := nodup_str (map dn (user_directives doc)).
 
 (** * Known types, input/output positions *)
 Definition defined (doc : tsdoc) (n : str) : bool := match lookup_t doc n with Some _ => true | None => false end.
@@ -390,7 +407,7 @@ Definition ok_directive_recursive_shallow (doc : tsdoc) : bool := ok_directive_r
 
 (** * The implemented rules, by name *)
 Inductive rule :=
-| RReserved | RDupField | RDupArg | RDupEnumValue | RDupUnionMember | RDupInputField
+| RReserved | RDupField | RDupArg | RDupEnumValue | RDupUnionMember | RDupInputField | RDupDirective
 | RUnknownType | RInputInOutput | ROutputInInput | RNotInterface | RImplementsSelf | RMissingTransitive
 | RIfaceFieldMissing | RIfaceFieldType | RIfaceArgMissing | RIfaceArgType | RIfaceExtraRequiredArg
 | RUnionMemberNotObject | RDirectiveUnknown | RDirectiveMisplaced | RDirectiveRepeated | RDirectiveArgs
@@ -403,7 +420,7 @@ Definition rule_ok_gen (spec : bool) (r : rule) (doc : tsdoc) : bool :=
   match r with
   | RReserved => ok_reserved doc | RDupField => ok_dup_field doc | RDupArg => ok_dup_arg doc
   | RDupEnumValue => ok_dup_enum_value doc | RDupUnionMember => ok_dup_union_member doc
-  | RDupInputField => ok_dup_input_field doc | RUnknownType => ok_unknown_type doc
+  | RDupInputField => ok_dup_input_field doc | RDupDirective => ok_dup_directive doc | RUnknownType => ok_unknown_type doc
   | RInputInOutput => ok_input_in_output doc | ROutputInInput => ok_output_in_input doc
   | RNotInterface => ok_not_interface doc | RImplementsSelf => ok_implements_self doc
   | RMissingTransitive => ok_missing_transitive doc | RIfaceFieldMissing => ok_iface_field_missing doc
@@ -415,7 +432,7 @@ Definition rule_ok_gen (spec : bool) (r : rule) (doc : tsdoc) : bool :=
   end.
 Definition rule_ok (r : rule) (doc : tsdoc) : bool := rule_ok_gen true r doc.
 Definition all_rules : list rule :=
-  [RReserved; RDupField; RDupArg; RDupEnumValue; RDupUnionMember; RDupInputField; RUnknownType; RInputInOutput;
+  [RReserved; RDupField; RDupArg; RDupEnumValue; RDupUnionMember; RDupInputField; RDupDirective; RUnknownType; RInputInOutput;
    ROutputInInput; RNotInterface; RImplementsSelf; RMissingTransitive; RIfaceFieldMissing; RIfaceFieldType;
    RIfaceArgMissing; RIfaceArgType; RIfaceExtraRequiredArg; RUnionMemberNotObject; RDirectiveUnknown;
    RDirectiveMisplaced; RDirectiveRepeated; RDirectiveArgs; RDirectiveRecursive].
@@ -477,7 +494,9 @@ Definition ok_implements_acyclic (doc : tsdoc) : bool :=
                            (impl_closure doc (length doc) (add_new [] (map iname (snd (fst c))))))) (comps doc).
 
 (** well-formedness premises under which the rule booleans are read *)
-Definition wf_doc (doc : tsdoc) : bool := unique_names doc && ok_app_args_nonempty doc.
+(** premises under which the rule booleans are read: unique type names; the built-in directive definitions are
+    not redefined; no empty parentheses.  (Uniqueness of the schema's own directive names is a rule, not a premise.) *)
+Definition wf_doc (doc : tsdoc) : bool := unique_type_names doc && builtins_not_redefined doc && ok_app_args_nonempty doc.
 
 Definition spec_valid (doc : tsdoc) : bool :=
   unique_names doc && forallb (fun r => rule_ok r doc) all_rules &&
